@@ -21,9 +21,7 @@ CFG = {
                   "ro_sound of the theorems; cross-checked statically against the parsed bodies of bslice/bmap/zset callees and dynamically "
                   "against the unguarded containers), the Go harness. Not covered by any theorem: data-race freedom in the sense of the Go "
                   "memory model (race detector only, sampled schedules), deadlock freedom beyond 'every method releases what it acquires and "
-                  "never re-acquires' (watchdog), absence of panics (sampled). Accepted and documented weakness: zset.Set.Add/Remove/Contains "
-                  "with several elements are a sequence of separately locked single-element calls (race free, atomic per element, not one "
-                  "atomic step; Classify.compound_known). Excluded as the property says: ToMetaSlice, ToMetaMap, GetByRange, callbacks that "
+                  "never re-acquires' (watchdog), absence of panics (sampled). A method that is a sequence of separately locked calls (per variadic element) is rejected by check_tables (Classify.compound_known is empty; zset.Set.Add/Remove/Contains were of that shape and are repaired by fix 0040). Excluded as the property says: ToMetaSlice, ToMetaMap, GetByRange, callbacks that "
                   "re-enter the instance. Not exercised: (de)serialisation methods (C15), lscq.QueueSafe methods that are unimplemented stubs.",
     "harness": "c11",
     "gen": [
